@@ -192,15 +192,15 @@ type RPoint struct {
 	Ret    []string `json:"ret"` // func points: values of the returns argument (none = no argument)
 }
 type RScenario struct {
-	ID    string   `json:"id"`
-	Prov  []RProv  `json:"prov"` // prov[0] is the holder
-	Pts   []RPoint `json:"pts"`
-	Order []int    `json:"order"` // candidate iteration priority
-	Reg   []int    `json:"reg"`   // registration order
-	Split bool     `json:"split"` // wire even positions through a second tag-scan processor (varies the property order)
-	Seed  int64    `json:"seed"`  // permutation of the singleton registry's name enumeration
-	Preset bool    `json:"preset"` // every point's field holds a sentinel (pid 99, not a registered component) before the start
-	Extra  bool    `json:"extra"`  // processors.NewDependencyTypeAwarePostProcessors() is registered next to the default collector
+	ID     string   `json:"id"`
+	Prov   []RProv  `json:"prov"` // prov[0] is the holder
+	Pts    []RPoint `json:"pts"`
+	Order  []int    `json:"order"`  // candidate iteration priority
+	Reg    []int    `json:"reg"`    // registration order
+	Split  bool     `json:"split"`  // wire even positions through a second tag-scan processor (varies the property order)
+	Seed   int64    `json:"seed"`   // permutation of the singleton registry's name enumeration
+	Preset bool     `json:"preset"` // every point's field holds a sentinel (pid 99, not a registered component) before the start
+	Extra  bool     `json:"extra"`  // processors.NewDependencyTypeAwarePostProcessors() is registered next to the default collector
 }
 
 // the sentinel a preset field holds before the start: never registered, so it can only survive, never be injected
